@@ -72,7 +72,7 @@ def _label_of(f, e):
 def run(ctx):
     prog = ctx.prog
     ce = ConstEval(prog)
-    ctx.clauses_decided = ["R2 FCHK label tables", "R3 index offsets (writers)", "R4 FCIDUMP index-order pairing", "R5 lookup-table bijections", "R6 POSCAR same-order coherence", "R7 dict attributes never None", "R8 FCHK run-type vocabulary", "R9 options reach the per-frame routines", "R10 writer flattening vs reader reshape (symbolic evaluation)"]
+    ctx.clauses_decided = ["R2 FCHK label tables", "R3 index offsets (writers)", "R4 FCIDUMP index-order pairing", "R5 lookup-table bijections", "R6 POSCAR same-order coherence", "R7 dict attributes never None", "R8 FCHK run-type vocabulary", "R9 options reach the per-frame routines", "R10 writer flattening vs reader reshape (symbolic evaluation)", "R11 layout-independent traversal", "R12 reader/writer unit factors are inverse"]
     ctx.clauses_declined = ["equality of real data to the digits printed", "behaviour at field overflow", "multi-line titles", "whether every optional attribute present is written", "R1/R9: decided under C03-R5 / C03-R2"]
 
     # ------------------------------------------------------------------ R2
@@ -414,3 +414,33 @@ def run(ctx):
                     pass
                 ctx.violate("R11", f"`{src_of(n)[:60]}`: {LAYOUT_CALLS[nm]}; two arrays with equal entries but different strides are written differently", f, n)
     ctx.floor("R11", ntrav, 12, "array traversal sites in writers")
+
+
+    # ------------------------------------------------------------------ R12
+    ctx.rule("R12", "the writer's unit factor is the inverse of the reader's, attribute by attribute", "a quantity comes back rescaled by a unit factor after save and reload (one side converts, the other does not)")
+    from .c04 import unit_tables
+
+    both = [sh for sh in prog.format_modules() if prog.format_op(sh, "load_one") is not None and prog.format_op(sh, "dump_one") is not None]
+    npairs = 0
+    for short, (reader, writer, lo, do) in unit_tables(prog, both).items():
+        for attr in sorted(set(reader) & set(writer)):
+            rt = reader[attr]
+            if not rt:
+                continue  # never set / zero
+            inv = {tuple(sorted((k, -v) for k, v in m)) for m in rt}
+            wt = {tuple(sorted(m)) for m in writer[attr]}
+            npairs += 1
+            if wt and wt <= inv:
+                if rt != frozenset([()]):
+                    ctx.ok("R12", f"{short} `{attr}`: read x {_show_unit(rt)}, written x {_show_unit(wt)}", f"{do.module.relpath}:{do.lineno}")
+                else:
+                    ctx.ok("R12", f"{short} `{attr}`: no unit factor on either side", f"{do.module.relpath}:{do.lineno}", sample=False, nontrivial=False)
+            else:
+                ctx.violate("R12", f"{short}: `{attr}` is read with unit factor `{_show_unit(rt)}` but written with `{_show_unit(wt)}`; after save and reload the value is rescaled", do, do.node, construct=f"{short} {attr}: read {_show_unit(rt)} / written {_show_unit(wt)}")
+    ctx.floor("R12", npairs, 25, "attributes both read and written by one format")
+
+
+def _show_unit(tag):
+    from ..domains.units import show
+
+    return show(frozenset(tuple(m) for m in tag))
